@@ -45,19 +45,22 @@ Proof. exact step_err_unchanged. Qed.
 Print Assumptions C25_error_writes_nothing.
 
 (* 3. After ANY history of encrypt / decrypt / change-user / change-owner / set-permissions calls with right and
-      wrong credentials, starting from an unencrypted document: let c be the current passwords as the caller
-      understands them (cur: the passwords of the last successful encrypt, updated by every successful change).
-      Then (i) a pair of credential slots opens the document exactly when the owner slot is accepted for the
-      current owner password (R<=4: an empty owner slot falls back to the user slot, key()) or the user slot is
-      accepted for the current user password; (ii) the current passwords open it; (iii) a password accepted for
-      neither current password - in particular a replaced one - does not open it from the user slot, nor from the
-      owner slot unless the current user password is empty.
-      FULL STATEMENT: the same without the hypothesis [hist_wp].  It is false (C25_current_password_refused_refuted):
-      for AES-256 the writer stores the raw password while the reader prepares (PRECIS) and truncates it
-      (finding aes256-password-prep-asymmetric).  hist_wp restricts only AES-256 documents: every password WRITTEN
-      into one is left alone by the preparation (prep x = Some x, at most 127 bytes); for R 2,3,4 it is vacuous. *)
-Theorem C25_only_current_passwords_open_partial : forall prep h,
-  hist_wp prep Plain h ->
+      wrong credentials, starting from an unencrypted document, for every algorithm and every password (any bytes,
+      any length, whatever the preparation does to them): let c be the current passwords as the caller understands
+      them (cur: the passwords of the last successful encrypt, updated by every successful change; an operation
+      whose new AES-256 password the preparation rejects fails and changes nothing).  Then
+      (i) a pair of credential slots opens the document exactly when the owner slot is accepted for the current
+      owner password (R<=4: an empty owner slot falls back to the user slot, key()) or the user slot is accepted
+      for the current user password, "accepted" meaning: same prepared form (R<=4 padded/truncated to 32 bytes,
+      R>=5 processInput + 127 bytes); (ii) the current passwords open it; (iii) a password accepted for neither
+      current password - in particular a replaced one - does not open it from the user slot, nor from the owner
+      slot unless the current user password is (equivalent to) the empty one; (iv) the current passwords are ones
+      the preparation accepts.
+      (Before pdfcpu dd3e7ff0 the AES-256 writer hashed the raw password and (ii) failed for passwords the reader's
+      preparation rejects, rewrites or truncates: findings aes256-password-prep-asymmetric and
+      aes256-password-over-127-bytes-not-truncated-on-write; the harness oracle still reports them under these
+      classes.) *)
+Theorem C25_only_current_passwords_open : forall prep h,
   match run prep Plain h, cur prep None Plain h with
   | Plain, None => True
   | Encrypted e, Some c =>
@@ -66,21 +69,11 @@ Theorem C25_only_current_passwords_open_partial : forall prep h,
     /\ opens prep e (cO c) [] = true /\ opens prep e [] (cU c) = true
     /\ (forall x, ~ accepts prep (cR c) (cO c) x -> ~ accepts prep (cR c) (cU c) x ->
           opens prep e [] x = false /\ (~ accepts prep (cR c) (cU c) [] -> opens prep e x [] = false))
+    /\ rprep prep (cR c) (cO c) <> None /\ rprep prep (cR c) (cU c) <> None
   | _, _ => False
   end.
 Proof. exact history_current. Qed.
-Print Assumptions C25_only_current_passwords_open_partial.
-
-(* The hypothesis cannot be dropped: with a preparation that rejects the password (as PRECIS rejects "my pass"),
-   the document written by api.Encrypt does not open with its own user password. *)
-Theorem C25_current_password_refused_refuted : exists prep h e c,
-  run prep Plain h = Encrypted e /\ cur prep None Plain h = Some c /\ opens prep e [] (cU c) = false.
-Proof.
-  exists (fun x => if existsb (N.eqb 32) x then None else Some x).
-  exists [OpEncrypt 5 [111] [109; 121; 32; 112; 97; 115; 115] 0%Z].
-  eexists. eexists. split; [reflexivity|]. split; [reflexivity|]. vm_compute. reflexivity.
-Qed.
-Print Assumptions C25_current_password_refused_refuted.
+Print Assumptions C25_only_current_passwords_open.
 
 (* non-vacuity: a history with equal passwords, a refused change, a change through the empty owner slot *)
 Example C25_nonvacuous :
@@ -89,11 +82,26 @@ Example C25_nonvacuous :
             OpChangeUser [120] [115] [110];              (* wrong owner "x": refused *)
             OpChangeUser [] [115] [110];                 (* empty owner slot: owner follows the user password *)
             OpChangeOwner [110] [110] [111]] in          (* owner := "o" *)
-  hist_wp prep Plain h
-  /\ cur prep None Plain h = Some (mkCreds 4 [111] [110])
+  cur prep None Plain h = Some (mkCreds 4 [111] [110])
   /\ match run prep Plain h with
      | Encrypted e => opens prep e [] [115] = false /\ opens prep e [115] [] = false
                       /\ opens prep e [] [110] = true /\ opens prep e [111] [] = true
+     | Plain => False
+     end.
+Proof. vm_compute. repeat split; intros; congruence. Qed.
+
+(* non-vacuity, AES-256 with a preparation that rejects byte 32, rewrites byte 170 to 97 and is followed by the
+   truncation: a rewritten and a 130-byte password open their own document, a rejected one cannot be set *)
+Example C25_nonvacuous_aes :
+  let prep := fun x : bytes => if existsb (N.eqb 32) x then None else Some (map (fun b => if b =? 170 then 97 else b) x) in
+  let long := repeat 120 130 in
+  let h := [OpEncrypt 5 [111] [109; 32; 112] 0%Z;        (* user password with a space: refused, nothing written *)
+            OpEncrypt 5 [111] [170] 0%Z;                 (* user password rewritten by the preparation *)
+            OpChangeUser [111] [97] long] in             (* old user password given in its prepared form; new one > 127 bytes *)
+  cur prep None Plain h = Some (mkCreds 5 [111] long)
+  /\ match run prep Plain h with
+     | Encrypted e => opens prep e [] long = true /\ opens prep e [] (firstn 127 long) = true
+                      /\ opens prep e [] [170] = false /\ opens prep e [111] [] = true
      | Plain => False
      end.
 Proof. vm_compute. repeat split; intros; congruence. Qed.
